@@ -297,11 +297,14 @@ func isCollKind(k string) bool {
 	return false
 }
 
-func genC09Obj(t *rapid.T, kind string, depth int, rel *exact.Shape) c09Obj {
+func genC09Obj(t *rapid.T, kind string, depth int, rels []*exact.Shape) c09Obj {
 	const R = 6
 	shape := func(k exact.Kind) *exact.Shape {
 		var s exact.Shape
-		if rel != nil && rapid.IntRange(0, 2).Draw(t, "related") > 0 {
+		if len(rels) > 0 && rapid.IntRange(0, 2).Draw(t, "related") > 0 {
+			// each member relates to one of the other operand's leaf shapes, so different children of a
+			// collection can hold different parts of the other object
+			rel := rels[rapid.IntRange(0, len(rels)-1).Draw(t, "relidx")]
 			s = genRelatedShape(t, rel, k, R, true)
 		} else {
 			s = genShapeOfKind(t, k, R, 6, true)
@@ -339,38 +342,36 @@ func genC09Obj(t *rapid.T, kind string, depth int, rel *exact.Shape) c09Obj {
 			if depth <= 0 && (isCollKind(ck) || ck == "Feature") {
 				ck = "Polygon"
 			}
-			o.Children = append(o.Children, genC09Obj(t, ck, depth-1, rel))
+			o.Children = append(o.Children, genC09Obj(t, ck, depth-1, rels))
 		}
 	case "Feature":
 		ck := rapid.SampledFrom(c09Kinds).Draw(t, "featkind")
 		if depth <= 0 && (isCollKind(ck) || ck == "Feature") {
 			ck = "LineString"
 		}
-		o.Children = []c09Obj{genC09Obj(t, ck, depth-1, rel)}
+		o.Children = []c09Obj{genC09Obj(t, ck, depth-1, rels)}
 	}
 	return o
 }
 
-// firstShape finds a leaf shape inside an object (used to relate B to A).
-func (o *c09Obj) firstShape() *exact.Shape {
-	if o.Shape != nil && o.Kind != "Circle" {
-		return o.Shape
+// leafShapes collects the leaf shapes inside an object (used to relate B to A).
+func (o *c09Obj) leafShapes(out []*exact.Shape) []*exact.Shape {
+	if o.Shape != nil {
+		out = append(out, o.Shape)
 	}
-	if len(o.Shapes) > 0 {
-		return &o.Shapes[0]
+	for i := range o.Shapes {
+		out = append(out, &o.Shapes[i])
 	}
 	for i := range o.Children {
-		if s := o.Children[i].firstShape(); s != nil {
-			return s
-		}
+		out = o.Children[i].leafShapes(out)
 	}
-	return nil
+	return out
 }
 
 func c09Gen(t *rapid.T) c09Case {
 	cell := rapid.IntRange(0, 143).Draw(t, "cell")
 	a := genC09Obj(t, c09Kinds[cell/12], 2, nil)
-	b := genC09Obj(t, c09Kinds[cell%12], 2, a.firstShape())
+	b := genC09Obj(t, c09Kinds[cell%12], 2, a.leafShapes(nil))
 	return c09Case{A: a, B: b}
 }
 
